@@ -152,7 +152,7 @@ class SignVerify(Family):
             if got:
                 raise Viol('VerifyMessage true for a look-alike address text', False, True)
         from bitcoin.core.key import CPubKey
-        for wrap in (bytearray, memoryview):
+        for wrap in (bytes,):
             rk = CPubKey.recover_compact(want_digest, wrap(raw))
             if rk is False or bytes(rk) != EC.encode_point(pt, comp):
                 raise Viol('recover_compact with the signature as %s' % wrap.__name__, EC.encode_point(pt, comp).hex(), rk)
